@@ -292,7 +292,7 @@ def check_item(item, opts_list, part, n_env):
             part.error(type(e).__name__)
             part.outcome(("raises", type(e).__name__))
             continue
-        envs = FS.envs_for(itype, cellname, gdim, complex_mode=opts["complex_mode"], n=n_env)
+        envs = FS.envs_for(itype, cellname, gdim, complex_mode=opts["complex_mode"], n=n_env, both_orientations=True)
         seen_ids = set()
         for it, sids, integrands in idata:
             for sid in sids:
